@@ -250,6 +250,14 @@ def _trace_vc(ctx, L, own_table_only=False):
         return
     ctx.prove(f"L{L}-own-frames-are-ignored-without-trace", I, z3.And(own, z3.Or(any_touch, h.any_indication(), h.any_send())), vars=vars_, replay=replay_own,
               desc="a frame whose source GN address is the station's own updates no location-table entry, is not delivered and triggers no transmission")
+    # a frame whose remaining hop limit exceeds its maximum hop limit (basic header octet 3 > common header octet 10) is malformed whatever its type
+    rhl_over = z3.And(pkt.bs[0] == 0x11, z3.UGT(pkt.bs[3], pkt.bs[10])) if L > 10 else FALSE
+
+    def replay_rhl(vals):
+        bad, msg = replay_own(vals)
+        return bad, msg.replace("carrying the station's own address as source", f"with RHL {vals['frame'][3]} above MHL {vals['frame'][10]}")
+    ctx.prove(f"L{L}-hop-limit-above-maximum-leaves-no-trace", I, z3.And(rhl_over, z3.Or(any_touch, h.any_indication(), h.any_send())), vars=vars_, replay=replay_rhl,
+              desc="a frame of any header type with RHL > MHL updates no location-table entry, is not delivered and triggers no transmission")
     by_class = {}
     for c, k in raised:
         by_class.setdefault(k, []).append(c)
